@@ -37,7 +37,7 @@ FUNCTIONS = [
     "fdtdx.core.physics.curl.curl_E / curl_H",
 ]
 STUBS = ["exp(i k L) as (cos, sin) uninterpreted functions with the axiom instances exp(i k mL) = exp(i k L)^m and cos^2+sin^2 = 1"]
-ASSUMPTIONS = ["real arithmetic", "exp homomorphism for the two Bloch phase terms that occur", "tiling factors m in {2,3} (property text); several tiled axes follow by composing single-axis statements", "induction over steps is a pencil step"]
+ASSUMPTIONS = ["real arithmetic", "exp homomorphism for the two Bloch phase terms that occur; exp(i*0*L) = 1 on the zero-wave-vector path", "tiling factors m in {2,3} (property text); several tiled axes follow by composing single-axis statements", "induction over steps is a pencil step"]
 MIN_OBLIGATIONS = {"quick": 120, "thorough": 300}
 LEVEL_TEXT = "Deductive proof for all cell counts N, transverse shapes, field and material values and wave vectors that one real forward step of the m-fold supercell equals the phase-tiled step of the N-cell domain; tiled axis, m, boundary kinds on the other axes and material tiers enumerated"
 LEVEL_NOTE = "real arithmetic; m in {2,3}; exp homomorphism assumed for the occurring phase terms"
@@ -105,10 +105,16 @@ def _task(spec):
             PHI = bbg.get_bloch_phase(big, sp)
             if isinstance(PHI, SymArray):
                 PHI = PHI.item()
-            target = _cpow(phi, m)
-            c.assume_rewrite(SymNum(PHI.re), SymNum(target.re), "exp homomorphism (re)")
-            c.assume_rewrite(SymNum(PHI.im), SymNum(target.im), "exp homomorphism (im)")
-            c.assume(A.v_eq(SymNum(phi.re) * SymNum(phi.re) + SymNum(phi.im) * SymNum(phi.im), 1), "|phi| = 1")
+            if kb[ax] == 0:  # (forks) zero wave vector: exp(i*0*L) = 1 exactly for both phase terms
+                for term in (phi, PHI):
+                    c.assume_rewrite(SymNum(term.re), SymNum(1), "exp(0) = 1 (re)")
+                    c.assume_rewrite(SymNum(term.im), SymNum(0), "exp(0) = 1 (im)")
+                phi = 1
+            else:
+                target = _cpow(phi, m)
+                c.assume_rewrite(SymNum(PHI.re), SymNum(target.re), "exp homomorphism (re)")
+                c.assume_rewrite(SymNum(PHI.im), SymNum(target.im), "exp homomorphism (im)")
+                c.assume(A.v_eq(SymNum(phi.re) * SymNum(phi.re) + SymNum(phi.im) * SymNum(phi.im), 1), "|phi| = 1")
 
         def tiled(X, with_phase, lead=1):
             shp = tuple(X.shape[:lead]) + tuple(big if lead else ())
@@ -119,7 +125,7 @@ def _task(spec):
                 q, r = _tile_index(sp_idx[ax], N, m)
                 sp_idx[ax] = r
                 v = X.at_index(tuple(idx[:lead]) + tuple(A._raw_index(i) for i in sp_idx))
-                if with_phase and cplx:
+                if with_phase and cplx and phi is not 1:
                     f = 1
                     for j in range(1, m):
                         f = ite(A.v_eq(q, j), _cpow(phi, j), f)
